@@ -125,7 +125,9 @@ def gen_gentest_op(r, prog_refs, name='x'):
             'reference_files': list(prog_refs),
             'iterations': r.weighted([(2, 1), (6, 2), (2, 3)]),
             'no_stdout': r.chance(0.12), 'no_stderr': r.chance(0.12),
-            'non_zero_exit': r.chance(0.35)}
+            'non_zero_exit': r.chance(0.35),
+            # through the command-line wrapper (flag spellings) or the API
+            'via_cli': r.chance(0.4), 'long_flags': r.chance(0.5)}
 
 
 def gen_plan(prop, r, tier, run):
@@ -553,10 +555,25 @@ def run_gentest(ctx, op):
         ctx.nontrivial = True
     outcome, exc = 'ok', None
     try:
-        g.gentest(op['command'], script_arg, list(op['reference_files']),
-                  iterations=op['iterations'], no_stdout=op['no_stdout'],
-                  no_stderr=op['no_stderr'],
-                  non_zero_exit=op['non_zero_exit'])
+        if op.get('via_cli'):
+            lf = op.get('long_flags')
+            argv = []
+            if op['no_stdout']:
+                argv.append('--no-stdout' if lf else '-O')
+            if op['no_stderr']:
+                argv.append('--no-stderr' if lf else '-E')
+            if op['non_zero_exit']:
+                argv.append('--non-zero-exit' if lf else '-Z')
+            argv += ['--iterations' if lf else '-n', str(op['iterations'])]
+            argv += [op['command'], script_arg] + list(op['reference_files'])
+            g.gentest_wrapper(argv)
+            ctx.stats['probes']['gentest_via_command_line_flags'] += 1
+        else:
+            g.gentest(op['command'], script_arg,
+                      list(op['reference_files']),
+                      iterations=op['iterations'],
+                      no_stdout=op['no_stdout'], no_stderr=op['no_stderr'],
+                      non_zero_exit=op['non_zero_exit'])
     except WatchdogTimeout:
         raise
     except SystemExit as e:
